@@ -156,7 +156,7 @@ class Engine:
         self.fs: FnSource = fs if fs is not None else get_function(qualname)
         self.c = contract
         self.contracts = contracts if contracts is not None else S.CONTRACTS
-        self.module = qualname.partition(":")[0]
+        self.module = qualname.partition("#")[0].partition(":")[0]
         self.facts: list = []
         self.obls: list = []
         self.rec_funcs: dict = {}
